@@ -131,7 +131,9 @@ def main(argv):
         sh = core.Shard()
         sh.case = v["case"]
         confirmed = True
-        if v["case"] is not None and v["case"].get("sub") != "post":
+        # only the violations that are printed (the first 25 keys) are re-run: on a badly broken tree hundreds of keys, each
+        # confirmed serially by a complete case, took 10 - 40 minutes after the sweep had already decided the exit code
+        if reported < 25 and v["case"] is not None and v["case"].get("sub") != "post":
             try:
                 mod.check_case(sh, v["case"])
                 confirmed = key in sh.violations
